@@ -555,12 +555,20 @@ def vec_concat(ctx, vs, kind="list"):
             kk = k - off if (is_concrete_int(k) and is_concrete_int(off)) else z3.simplify(zint(k) - zint(off))
             if conc(ln) == 0:
                 continue
+            ckk, cln = conc(kk), conc(ln)
+            if ckk is not None and (ckk < 0 or (cln is not None and ckk >= cln)):
+                continue          # this part cannot hold position k
+            if ckk is not None:
+                kk = ckk
             val = s(kk)
             if fa is not None:
                 fs = fa(kk)
                 if fs:
                     ctx.assume(z3.Implies(in_range(kk, ln), z3.And(*fs)))
-            res = val if res is None else ite_val(zint(k) < zint(off) + zint(ln), val, res)
+            if res is None:
+                res = val
+            else:
+                res = ite_val(z3.And(zint(k) >= zint(off), zint(k) < zint(off) + zint(ln)), val, res)
         if res is None:
             raise Unsupported("index into empty concatenation")
         return res
